@@ -34,6 +34,10 @@ SCENARIOS = [
     dict(name='late', obs=[('a', 4, 2, 20, 5, 1), ('b', 9, 3, 20, 1, 2)]),
     dict(name='same-start-3', obs=[('a', 1, 3, 10, 2, 1), ('b', 1, 2, 10, 1, 1), ('c', 1, 2, 10, 1, 1)], max_ingest=2),
     dict(name='arrays-contended', obs=[('a', 0, 4, 36, 2, 1), ('b', 2, 3, 36, 1, 1)]),
+    # b falls due while a's data (half the hot buffer: no tier move) is still resident: b has to wait for a's workflow;
+    # c falls due much later, in a completely idle system
+    dict(name='blocked-admission', obs=[('a', 0, 5, 10, 10, 1), ('b', 5, 6, 10, 10, 1), ('c', 60, 2, 10, 1, 1)], max_ingest=3,
+         hot=(100, 10), cold=(200, 10)),
 ]
 
 
@@ -69,7 +73,9 @@ class Run:
         self.dir = tempfile.mkdtemp(prefix='topsim-simmon-', dir=os.environ.get('VERIF_SCRATCH', '/var/tmp'))
         self.wf = WORKFLOWS[wfname]
         self.obs = scenario['obs']
-        p = mkcfg(self.dir, self.obs, self.wf, max_ingest=scenario.get('max_ingest', 2))
+        p = mkcfg(self.dir, self.obs, self.wf, max_ingest=scenario.get('max_ingest', 2), hot=scenario.get('hot', (200, 10)),
+                  cold=scenario.get('cold', (200, 10)))
+        self.due_idle = None
         self.env = simpy.Environment()
         sched = BatchProcessing(min_resources_per_workflow=1, max_resource_partitions=2) if alg == 'batch' else QueueProcessing()
         self.sim = Simulation(self.env, p, Telescope, BatchPlanning('batch'), 'batch', sched, timestamp=0)
@@ -132,6 +138,25 @@ class Run:
             self.fail.append(('C08', f"t={now}: telescope use {tel.telescope_use} of {tel.total_arrays}"))
         if len(res['ingest']) > tel.max_ingest:
             self.fail.append(('C08', f"t={now}: {len(res['ingest'])} machines on ingest, limit {tel.max_ingest}"))
+        # C08: an observation that falls due while the system is completely idle starts exactly on time
+        if self.due_idle is not None:
+            o_, t_ = self.due_idle
+            if o_.status.name == 'WAITING' or getattr(o_, 'ast', None) != t_:
+                self.fail.append(('C08', f"t={t_}: observation {o_.name} fell due in a completely idle system but did not start "
+                                         f"(status {o_.status.name}, actual start {getattr(o_, 'ast', None)})"))
+            self.due_idle = None
+        ingesting = any(o.status.name == 'RUNNING' for o in tel.observations)
+        if (tel.telescope_use == 0 and not ingesting and len(res['available']) == len(ids) and not res['idle']
+                and hot.current_capacity == hot.total_capacity and cold.current_capacity == cold.total_capacity
+                and not sim.scheduler.observation_queue and not running):
+            for o in tel.observations:
+                if o.status.name == 'WAITING' and o.est == now:
+                    d_ = tel.pipelines[o.name]['ingest_demand']
+                    size_ = o.ingest_data_rate * o.duration
+                    if (o.demand <= tel.total_arrays and d_ <= len(ids) and d_ <= tel.max_ingest and size_ < hot.total_capacity
+                            and size_ <= cold.total_capacity and o.duration >= 1):
+                        self.due_idle = (o, now)
+                    break
         nres = len(res['idle'])
         alg = sim.scheduler.algorithm
         if hasattr(alg, 'max_resources_split') and type(alg).__name__ == 'BatchProcessing' and nres > alg.max_resources_split:
